@@ -396,11 +396,45 @@ def radius_argument(radius):
             import numpy as np
             return getattr(np, radius["np_type"])(v)
         return int(v) if radius.get("as_int") else v
-    txt = repr(int(v)) if float(v).is_integer() and abs(v) < 1e15 else repr(v)
+    txt = number_text(v, radius.get("fmt"))
+    fmt = radius.get("fmt") or {}
+    lead, trail = " " * fmt.get("lead", 0), " " * fmt.get("trail", 0)
     if radius["unit"] is None:
-        return txt
+        return lead + txt + trail
     sep = " " if radius["style"] == "space" else ""
-    return txt + sep + radius["unit"]
+    return lead + txt + sep + radius["unit"] + trail
+
+
+def number_text(v, fmt=None):
+    """decimal spelling of the float v that float() reads back exactly:
+    plain ('0.5'), without leading zero ('.5'), with sign ('+0.5', '+.5'),
+    exponent notation ('5e-1', '1E3')"""
+    kind = (fmt or {}).get("num", "plain")
+    plain = repr(int(v)) if float(v).is_integer() and abs(v) < 1e15 \
+        else repr(v)
+    txt = plain
+    if kind in ("exp", "EXP"):
+        mant, exp = ("%.16e" % v).split("e")
+        mant = mant.rstrip("0").rstrip(".")
+        txt = mant + ("e" if kind == "exp" else "E") + str(int(exp))
+    elif kind in ("nozero", "plus-nozero") and plain.startswith("0."):
+        txt = plain[1:]
+    if kind in ("plus", "plus-nozero"):
+        txt = "+" + txt
+    if float(txt) != v:
+        raise RuntimeError("harness: %r does not spell %r" % (txt, v))
+    return txt
+
+
+def text_formats():
+    """strategy for the way a number is written inside a unit string"""
+    return st.one_of(
+        st.none(), st.none(),
+        st.fixed_dictionaries({
+            "num": st.sampled_from(["plain", "nozero", "nozero", "plus",
+                                    "plus-nozero", "exp", "EXP"]),
+            "lead": st.sampled_from([0, 0, 1, 2]),
+            "trail": st.sampled_from([0, 0, 1])}))
 
 
 
